@@ -122,10 +122,19 @@ def make_sub(rnd, ch_vals, bs, depth, force=None):
         lim = (1 << (prec - 1)) - 1
         # a crude but stable predictor: first coefficient near 2^shift, the rest small
         coef = []
-        for j in range(order):
-            base = (1 << shift) if j == 0 else 0
-            c = base + rnd.randint(-max(1, (1 << shift) // 8), max(1, (1 << shift) // 8)) if j < 3 else rnd.randint(-2, 2)
-            coef.append(max(-lim - 1, min(lim, c)))
+        if rnd.random() < 0.25:
+            # adversarial predictor: every coefficient at the edge of its precision, so that the sum of products needs
+            # depth + precision + log2(order) bits (decoders that accumulate in too narrow a type wrap here)
+            order = min(order, rnd.choice([2, 3, 5, 6, 7, 12]))
+            prec = rnd.choice([12, 14, 15])
+            lim = (1 << (prec - 1)) - 1
+            coef = [rnd.choice([lim, -lim - 1]) for _ in range(order)]
+            shift = rnd.randint(max(0, prec - 3), 15)
+        else:
+            for j in range(order):
+                base = (1 << shift) if j == 0 else 0
+                c = base + rnd.randint(-max(1, (1 << shift) // 8), max(1, (1 << shift) // 8)) if j < 3 else rnd.randint(-2, 2)
+                coef.append(max(-lim - 1, min(lim, c)))
         sub.update({"precision": prec, "shift": shift, "coefs": coef})
     res = residuals(s, coef, shift)
     if not all(fits32(r) for r in res):
